@@ -5,6 +5,10 @@ Each seeded/<id>/ holds patch.diff (applies to /repo's HEAD with `git apply`), t
 demonstration (demo/), and meta.json {"property": "Cxx", "also": ["Cyy", ...], ...}.
 
 usage: seeded.py [--only SUBSTR] [--ids A,B,C] [--seed N] [--tier quick|thorough] [--in-place] [--keep]
+                 [--primary-only] [--scratch SUFFIX] [--res FILE]
+--primary-only : only the check of the property the change breaks (not the sibling checks in meta.also)
+--scratch S    : scratch dirs /tmp/seed-repo-S, /tmp/seed-harness-S, /tmp/seed-out-S (two runs side by side)
+--res FILE     : result file (default tools/seeded_result.json); merge with tools/seeded_merge.py
 
 default mode   : the patch is applied to a SCRATCH copy of the repository (/tmp/seed-repo) and a
                  scratch copy of the harness (/tmp/seed-harness) is built against it, so /repo and
@@ -57,8 +61,10 @@ def classify(r):
 
 
 def main():
+    global SREPO, SHARN, OUT, RES
     only, seed, tier, inplace, keep = None, 1, "quick", False, False
     idlist = None
+    primary_only = False
     a = sys.argv[1:]
     while a:
         x = a.pop(0)
@@ -74,6 +80,13 @@ def main():
             keep = True
         elif x == "--ids":
             idlist = a.pop(0).split(",")
+        elif x == "--primary-only":
+            primary_only = True
+        elif x == "--scratch":
+            suf = a.pop(0)
+            SREPO, SHARN, OUT = f"/tmp/seed-repo-{suf}", f"/tmp/seed-harness-{suf}", f"/tmp/seed-out-{suf}"
+        elif x == "--res":
+            RES = a.pop(0)
     ids = sorted(d for d in os.listdir("/verif/seeded") if os.path.isfile(f"/verif/seeded/{d}/patch.diff"))
     if only:
         ids = [d for d in ids if only in d]
@@ -92,7 +105,7 @@ def main():
     repo = REPO if inplace else SREPO
     for sid in ids:
         meta = json.load(open(f"/verif/seeded/{sid}/meta.json"))
-        checks = [meta["property"]] + [c for c in meta.get("also", []) if c != meta["property"]]
+        checks = [meta["property"]] + ([] if primary_only else [c for c in meta.get("also", []) if c != meta["property"]])
         patch = f"/verif/seeded/{sid}/patch.diff"
         ap = sh(f"git -C {repo} apply --whitespace=nowarn {patch}")
         if ap.returncode != 0:
